@@ -365,3 +365,17 @@ Print Assumptions C18_units_conflict.
 Print Assumptions C18_units_unrecognised.
 Print Assumptions C18_units_table_current.
 Print Assumptions C18_depth_consistent.
+
+(* ---- the NaN / inf -> null decision is the Python's -------------------------------------------------
+   json_of_value and json_of_sample equal las._json_value, re-translated on every run from /repo
+   (translators/funcs.py -> Gen/Funcs.v: py_json_value), followed by json's own dispatch json_native;
+   export_jops (Proofs/FuncsPinJson.v) reads the isinstance tests, np.isfinite, int(x) and float(x) on the
+   model's values. *)
+Require Import Funcs FuncsPinJson.
+Theorem C18_json_value_current : forall v, json_of_value v = json_native (py_json_value export_jops v).
+Proof. exact json_value_pin. Qed.
+Theorem C18_json_sample_current : forall x,
+  json_of_sample x = json_native (py_json_value export_jops (value_of_sample x)).
+Proof. exact json_sample_pin. Qed.
+Print Assumptions C18_json_value_current.
+Print Assumptions C18_json_sample_current.
